@@ -485,6 +485,28 @@ func (c *Ctx) checkSkipBeforeOpen(reach, fetch map[*ssa.Function]bool) {
 			if !core.EdgeDominates(skipIf.Block(), notSkipped, ci.Block()) {
 				bad = append(bad, fmt.Sprintf("load-reaching call %s at %s runs for children that the skip test would skip", shorten(core.CalleeName(ci)), c.P.Pos(ci.Pos())))
 			}
+			// laziness of the remaining children: a child may be opened while the stream is assembled only when it is the
+			// one that contains the offset (its start lies strictly before the read position)
+			startsBefore := core.GuardedBy(ci.Block(), func(cond ssa.Value) (bool, bool) {
+				bo, ok := cond.(*ssa.BinOp)
+				if !ok {
+					return false, false
+				}
+				isPos := func(v ssa.Value) bool {
+					u, ok := v.(*ssa.UnOp)
+					return ok && c.fieldOfAddr(fn, u.X) != nil && containsVar(posFields, c.fieldOfAddr(fn, u.X))
+				}
+				switch {
+				case bo.Op == token.LSS && isPos(bo.Y): // start < position
+					return true, true
+				case bo.Op == token.GTR && isPos(bo.X): // position > start
+					return true, true
+				}
+				return false, false
+			})
+			if !startsBefore {
+				bad = append(bad, fmt.Sprintf("load-reaching call %s at %s opens a child although it does not contain the read position (children after the first must stay deferred until they are read)", shorten(core.CalleeName(ci)), c.P.Pos(ci.Pos())))
+			}
 		}
 		// the skip branch must continue the loop without opening anything
 		r.Check(len(bad) == 0, "R5.4", key, pos, fmt.Sprintf("children before the offset are skipped using %s's result; %d other load-reaching call(s) run only for children that are not skipped", calleeShort(sizeQuery), nchecked), strings.Join(bad, "; "))
